@@ -35,6 +35,18 @@ CLAIMED = {
    text="Transpose/Concat/Slice/Gather/Expand through the public operator path with perm entries, axes, starts/ends/steps (incl. INT64 extremes) and every gather index as solver variables over stated finite domains and all data elements symbolic; results are compared with the ONNX index formulas written as plain loops: result-or-error for implementable requests, error for invalid ones, never a panic, inputs unmodified.",
    note="Two known findings (Slice drops extent-1 axes; steps other than 1) are listed in known_findings.json; repeated Slice axes (undefined in ONNX) and empty results are outside." + NOTE_COMMON,
    design="DESIGN.md section 4, C08"),
+ "C10": dict(
+   text="The 17 unary operators through the public operator path on float32/float64 (every accepted integer type for Abs/PRelu, bool for Not), every element a solver variable under IEEE-754: the result must be, per element, the term of the function the operator is named after (math wrappers: E(math.F(float64(x))) with one uninterpreted function per routine, so a wrapper that calls another routine is refuted; Abs/Relu/PRelu/Not: exact semantics incl. NaN, -Inf, signed zero; Tanh/Sigmoid: the math32/math routines gorgonia's kernels call, plus special-value assertions), shape and dtype preserved, PRelu slope unidirectionally broadcast (13 shape pairs), inputs unmodified.",
+   note="Accuracy of the transcendental routines against the correctly rounded function is not decided (no SMT theory): Go's math/math32 are trusted and only facts about exp/tanh listed in the evidence are assumed." + NOTE_COMMON,
+   design="DESIGN.md section 4, C10"),
+ "C11": dict(
+   text="Cast: all 10x10 numeric pairs with symbolic elements (conversion, target dtype per ONNX code, source signedness, shape), non-numeric and one symbolic target code refused; Constant: every attribute form with symbolic payloads; ConstantOfShape: symbolic requested shape entries and value element, value of 0D/2 elements/absent, and the same instance applied to two requests in a row.",
+   note="Float-to-integer conversion outside the target range is implementation-defined: both sides use Go's conversion." + NOTE_COMMON,
+   design="DESIGN.md section 4, C11"),
+ "C09": dict(
+   text="ArgMax/ReduceMax/ReduceMin: symbolic axes (incl. out-of-range and repeated), keepdims 0/1/absent, no axes, all elements symbolic (IEEE floats with ties and infinities, integers): output shape, dtype and first-occurrence / max / min per slice, error for invalid axes. Softmax/LogSoftmax in exact real arithmetic (exp/log uninterpreted, exp>0): outputs equal exp(x-m)/sum resp. (x-m)-log(sum) along the requested axis only, slices sum to 1, and the same operator instance re-applied to an input of another rank; thorough tier adds IEEE float32 proofs that finite inputs of any magnitude give non-NaN results in range. gorgonia's Argmax/Max/Min/softmax kernels are line-by-line ports incl. their quirks.",
+   note="Two known findings (ArgMax +Inf tie, softmax slice-maximum seed) listed in known_findings.json; NaN ordering in reductions outside; the IEEE overflow clause is thorough-tier only (about one minute of solver time per assertion)." + NOTE_COMMON,
+   design="DESIGN.md section 4, C09"),
 }
 NA_REASON = "check not built yet (engine under construction in this session); will be claimed once its bounds run clean"
 checks = []
